@@ -11,6 +11,7 @@ TI = "openpectus/lang/exec/tags_impl.py"
 AN = "openpectus/lang/exec/analyzer.py"
 AST = "openpectus/lang/model/ast.py"
 MM = "openpectus/engine/method_manager.py"
+RLOG = "openpectus/lang/exec/runlog.py"
 
 
 def M(id, prop, file, find, replace, expect, why, **kw):
@@ -211,4 +212,22 @@ VARIANTS = [
     M("C13-merge-keeps-error", "C13", ENG, "                    if self.has_error_state():\n                        self.clear_error_state()\n", "", "R13e", "merge does not clear the error state"),
     E("C13-handler-order", "C13", ENG, "                except Exception as ex:\n                    logger.error(\"Unhandled interpretation error\", exc_info=True)\n                    frontend_logger.error(\"Method error\")\n                    self.set_error_state(ex)\n", "                except Exception as ex:\n                    self.set_error_state(ex)\n                    logger.error(\"Unhandled interpretation error\", exc_info=True)\n                    frontend_logger.error(\"Method error\")\n", "set_error_state first in handler"),
     E("C13-bare-except", "C13", ENG, "            except Exception as ex:\n                self.set_error_state(ex)\n\n            # notify of tag changes", "            except BaseException as ex:\n                self.set_error_state(ex)  # type: ignore\n\n            # notify of tag changes", "wider catch-all"),
+    # ---------------------------------------------------------------- C15
+    M("C15-wall-clock-state", "C15", "openpectus/lang/exec/tracking.py", "        record._add_state(instance_id, state, self.tick_time, self.tick_number,", "        record._add_state(instance_id, state, time.time(), self.tick_number,", "R15a", "record states stamped with another clock"),
+    M("C15-states-prepend", "C15", RLOG, "        self.states.append(record_state)", "        self.states.insert(0, record_state)", "R15a", "states no longer in insertion order"),
+    M("C15-start-any-state", "C15", RLOG, "                    item.state = RunLogItemState.Started  # TODO possibly improve - could also be Waiting\n                    item.start = state.state_time\n", "                    item.state = RunLogItemState.Started  # TODO possibly improve - could also be Waiting\n", "R15a", "start no longer assigned in first-state branch", also=[]),
+    M("C15-order-check-soft", "C15", RLOG, "            self._check_record_states_ordered(invocation_states, raise_if_unordered=True)", "            self._check_record_states_ordered(invocation_states, raise_if_unordered=False)", "R15a", "ordering check only warns"),
+    M("C15-no-sort", "C15", RLOG, "        runlog.items.sort(key=lambda item: item.start)\n", "", "R15b", "run log not sorted"),
+    M("C15-sort-by-end", "C15", RLOG, "        runlog.items.sort(key=lambda item: item.start)\n", "        runlog.items.sort(key=lambda item: item.end or item.start)\n", "R15b", "sorted by something else"),
+    M("C15-id-node", "C15", RLOG, "                    item.id = state.instance_id\n", "                    item.id = r.node_id\n", "R15b", "item id is the node id: alarm invocations share it"),
+    M("C15-still-cancellable", "C15", RLOG, "                    item.end_values = state.values or TagValueCollection.empty()\n                    item.cancellable = False\n", "                    item.end_values = state.values or TagValueCollection.empty()\n", "R15c", "finished item stays cancellable"),
+    M("C15-end-only-last", "C15", RLOG, "                if is_conclusive_state:\n                    item.end = state.state_time\n", "                if is_conclusive_state and not has_more_states:\n                    item.end = state.state_time\n", "R15c", "end only on the last state"),
+    M("C15-cancelled-not-conclusive", "C15", RLOG, "                    RuntimeRecordStateEnum.Completed, RuntimeRecordStateEnum.Failed, RuntimeRecordStateEnum.Cancelled\n                ]", "                    RuntimeRecordStateEnum.Completed, RuntimeRecordStateEnum.Failed\n                ]", "R15c", "cancelled items never end"),
+    M("C15-progress-after-finalise", "C15", RLOG, "                if not is_conclusive_state:\n                    if command is not None:\n                        if isinstance(command, UodCommand):\n                            item.cancellable = True  # Node.cancellable does not support uod commands\n                        self._update_item_progress(item, command)\n                    elif r.progress is not None:\n                        self._update_item_progress(item, r)\n\n                if is_conclusive_state:\n                    item.end = state.state_time\n                    item.end_values = state.values or TagValueCollection.empty()\n                    item.cancellable = False\n                    item.forcible = False\n", "                if is_conclusive_state:\n                    item.end = state.state_time\n                    item.end_values = state.values or TagValueCollection.empty()\n                    item.cancellable = False\n                    item.forcible = False\n\n                if command is not None:\n                    if isinstance(command, UodCommand):\n                        item.cancellable = True  # Node.cancellable does not support uod commands\n                    self._update_item_progress(item, command)\n                elif r.progress is not None:\n                    self._update_item_progress(item, r)\n", "R15c", "uod command items re-marked cancellable after finalisation"),
+    M("C15-start-every-state", "C15", RLOG, "                    item.state = RunLogItemState.Started  # TODO possibly improve - could also be Waiting\n                    item.start = state.state_time\n", "                    item.state = RunLogItemState.Started  # TODO possibly improve - could also be Waiting\n                if item is not None:\n                    item.start = state.state_time\n", "R15a", "start overwritten by every state"),
+    M("C15-exclude-watch", "C15", RLOG, "               (p.ProgramNode, p.BlankNode, p.CommentNode, p.InjectedNode)):", "               (p.ProgramNode, p.BlankNode, p.CommentNode, p.InjectedNode, p.WatchNode)):", "R15d", "Watch excluded from the run log"),
+    M("C15-exclude-mark", "C15", RLOG, "        if r.name == \"Stop\":\n            return []", "        if r.name == \"Stop\" or r.name == \"Mark\":\n            return []", "R15d", "Mark excluded from the run log"),
+    M("C15-notify-not-tracked", "C15", PI, "        self.tracking.mark_started(node)\n        self.tracking.mark_completed(node)\n        node.completed = True\n        yield VisitResult.EndTick\n\n\n    def visit_EngineCommandNode", "        self.tracking.mark_started(node)\n        node.completed = True\n        yield VisitResult.EndTick\n\n\n    def visit_EngineCommandNode", "R15e", "Notify completes without a Completed state"),
+    E("C15-finalise-reordered", "C15", RLOG, "                    item.end = state.state_time\n                    item.end_values = state.values or TagValueCollection.empty()\n                    item.cancellable = False\n                    item.forcible = False\n", "                    item.cancellable = False\n                    item.forcible = False\n                    item.end_values = state.values or TagValueCollection.empty()\n                    item.end = state.state_time\n", "finalisation statements reordered"),
+    E("C15-conclusive-tuple", "C15", RLOG, "                is_conclusive_state = state.state_name in [\n                    RuntimeRecordStateEnum.Completed, RuntimeRecordStateEnum.Failed, RuntimeRecordStateEnum.Cancelled\n                ]", "                is_conclusive_state = state.state_name in (\n                    RuntimeRecordStateEnum.Cancelled, RuntimeRecordStateEnum.Completed, RuntimeRecordStateEnum.Failed)", "tuple, other order"),
 ]
